@@ -43,7 +43,7 @@ def blocks(tier, seed):
         for m0 in range(0, shape[0] // 4 + 1):
             out.append({"kind": "waves", "shape": list(shape), "aspect": aspect, "seedv": seed % 3, "m0": m0})
     # droplet counting under every translation of every small binary image
-    for shape in [[3, 4], [4, 3]] + ([[4, 4], [2, 2, 3]] if tier == "thorough" else []):
+    for shape in [[3, 4], [4, 3], [7], [8], [10]] + ([[4, 4], [2, 2, 3], [12]] if tier == "thorough" else []):
         for b0 in (0, 1):
             for b1 in (0, 1):
                 out.append({"kind": "shift-detect", "shape": shape, "prefix": [b0, b1]})
@@ -299,6 +299,11 @@ def run_case(case, ctx):
                 ctx.check("C17.shift", same, {"shift": sh, "length": val, "base": base}, t)
         if not isinstance(base, str) and math.isfinite(base):
             ctx.count("translated-images-with-droplets")
+        if dim == 1 and not wind:
+            # one dimension: the equal-volume 'spheres' are the segments themselves, so the count is the number of components
+            ncomp = len(geom.components(f > 0.5, pmask))
+            ctx.check("C17.detection", (not isinstance(base, str)) and abs(base - shape[0] / ncomp) <= 1e-9 * shape[0], {"length": base, "components": ncomp, "box": shape[0]}, t)
+            ctx.count("one-dimensional-images-counted")
         return
 
     methods = ["structure_factor_mean", "structure_factor_maximum"]
